@@ -451,3 +451,13 @@ func IsNoReturnCall(in ssa.Instruction) bool {
 
 // EvalFact evaluates a boolean / nil-ness value at a node under path facts (+1 true, -1 false, 0 unknown).
 func EvalFact(n *Node, v ssa.Value, f Facts) int8 { return eval(n.Frame, v, f) }
+
+// NodeOf returns the node of an instruction in the root frame (nil if absent).
+func (g *Graph) NodeOf(in ssa.Instruction) *Node {
+	for _, n := range g.Nodes {
+		if n.Instr == in && n.Frame.Parent == nil {
+			return n
+		}
+	}
+	return nil
+}
